@@ -143,4 +143,61 @@ CLAIMED['C02'] = dict(
     technique='Lean 4 closed-world invariant proof by induction over events + differential correspondence + census monitor',
 )
 
+CLAIMED['C03'] = dict(
+    text='PARTIAL by design. Theorems (Props/C03.lean) about the notification mechanism of the executable floor model, for '
+         'every world: a hand-over attempt (schedulePass) clears the flag and queues a live PASS_PART event of the device at '
+         'the current instant and is never rejected; notifications never remove or cancel a queued event and never set a '
+         'waiting flag; notifyUp wakes every flagged, operational upstream handler it reaches (directly, through chains of '
+         'gates of any length within the fuel, through group input/output) - i.e. it turns "flagged" into "attempt queued at '
+         'now"; a blocked ready part is always flagged (passHandler / buffer); every unblocking site performs the notification '
+         'or the attempt in the same call (unblocking an input, restoring a machine with or without a finished part, resources '
+         'becoming available, a sink finishing, a successful hand-over, a buffer gaining room, a raised part budget, an added '
+         'connection), and by C01 an attempt queued at `now` runs before the clock advances. NOT proved: the global invariant '
+         'over all reachable states (no device holds an acceptable ready part when time advances) - that part is CHECKED on the '
+         'real code by a deep-copy probe at every clock advance (each ready part is offered to each sorted downstream on a copy '
+         'of the object graph) and by correspondence of slots/flags/events with the model on congested and targeted families.',
+    note=BASE_NOTE + ' Partial: local mechanism proved; closed-world liveness invariant checked, not proved. "run returns": per-scenario watchdog.',
+    technique='Lean 4 theorems about the wake-up mechanism + deep-copy quiescence probe on the real code + differential correspondence',
+)
+CLAIMED['C05'] = dict(
+    text='Theorems (Props/C05.lean): (A) an abstract buffer machine with the model\'s arithmetic satisfies the whole contract for '
+         'EVERY sequence of offers and releases with arbitrary downstream answers and non-decreasing times: level = number of '
+         'stored parts (batch contents count), level <= capacity, arrival order kept, released ++ stored = accepted (FIFO), every '
+         'released part stayed at least the minimum delay, offer accepted iff room. (B) refinement to the executable model: '
+         'canAcceptBasic on a buffer is exactly room & not blocked; acceptPart on a buffer is the machine\'s offer (exact level, '
+         'queue and the two records); bufferLoop/passPart are the machine\'s release (suffix of the queue, level bookkeeping, '
+         'only expired heads) for every topology in which the hand-over does not loop back into the buffer (hypothesis Good / '
+         'PlainDown, proved satisfiable; a self-loop example shows why it is needed); BufOK is preserved. Tie: floor families '
+         'with buffers vs the real Buffer; contract monitor on implementation traces.',
+    note=BASE_NOTE + ' Float rounding of (now - stored) and numpy.nextafter are outside the model (dyadic times: ulp test = "> 0").',
+    technique='Lean 4 contract proof for an abstract machine + refinement lemmas to the model + differential correspondence',
+)
+CLAIMED['C08'] = dict(
+    text='Theorems (Props/C08.lean, 47) about the model\'s hand-over functions for every world: the stable sort used for the '
+         'downstream order is a permutation, sorted by waiting-since with "not waiting" last, and stable, and the accepting '
+         'device is the first in that order that accepts (idle longest first); a gate whose predicate rejects or a blocked '
+         'gate/path/handler returns the unchanged world; a refused hand-over leaves NO trace: the parts table (all histories and '
+         'path stacks, batch contents included) is identical and no slot changed (no_leftovers, by induction over the controller '
+         'recursion); on acceptance exactly the device is appended to the history of the part and its contents; a group output '
+         'pops exactly the innermost path and offers the part to that path\'s downstreams, restoring the stack on refusal; '
+         'collected lists only grow at the end. NOT proved: the closed-world invariant "every history is a walk of the '
+         'configured graph" over all reachable states - checked on implementation traces (history-is-a-walk monitor incl. nested '
+         'groups) and by correspondence of all histories and stacks with the model.',
+    note=BASE_NOTE + ' A blocked GroupOutput is not consulted by the library either (model and code agree).',
+    technique='Lean 4 theorems over the hand-over recursion + routing monitor + differential correspondence',
+)
+CLAIMED['C17'] = dict(
+    text='Theorems (Props/C17.lean) about the model\'s batcher functions for every world satisfying an explicit, decidable '
+         'well-formedness predicate (each clause shown necessary by a counterexample): the internal move (batcherLoop / '
+         'tryMove) preserves the sequence output ++ batch-under-construction ++ remaining input (order preservation, input '
+         'batches unpacked front to back); with size n an output produced by the loop is a batch of exactly n parts and the '
+         'batch under construction stays below n; in single mode the output is the next single part; acceptance exactly when both '
+         'slots are empty; accepting appends the new leaves at the end of the sequence, a hand-over removes them from the front; '
+         'other devices and other parts are untouched; the loop refines an abstract list machine. NOT proved: the end-to-end '
+         'statement across hand-overs over all reachable states (needs the floor-wide invariant) - checked by the leaf-order '
+         'monitor on implementation traces and by correspondence on the batch-heavy family.',
+    note=BASE_NOTE,
+    technique='Lean 4 refinement proof of the batcher loop + leaf-order monitor + differential correspondence',
+)
+
 NOT_CLAIMED = {}
